@@ -58,6 +58,9 @@ pub struct StreamMon {
     /// executor step at which E processed the peer's first RST_STREAM; what E had emitted
     /// and processed on the stream by then
     pub rst_in_step: Option<u64>,
+    /// every code the peer sent in RST_STREAM frames on this stream (a peer may answer a
+    /// late frame with a second RST_STREAM(STREAM_CLOSED); h2 then reports the later one)
+    pub rst_in_codes: Vec<u32>,
     pub end_in_before_rst: bool,
     pub end_out_before_rst: bool,
     // reserved by PUSH_PROMISE (out for a server, in for a client)
@@ -443,6 +446,9 @@ impl Monitor {
                         s.end_out_before_rst = s.end_out;
                     }
                     s.rst_in = true;
+                    if let Some(c) = f.u32_at(0) {
+                        s.rst_in_codes.push(c);
+                    }
                 }
                 self.after_in_close(side, f.sid);
             }
